@@ -34,7 +34,13 @@ def dedupAdj : List α → List α
   | a :: b :: t => if a = b then dedupAdj (b :: t) else a :: dedupAdj (b :: t)
 
 /-- `array_to_groups_and_locations`: `(groups, locations)` with `groups` the sorted distinct keys
-    and `locations[i]` the index in `groups` of `keys[i]`. -/
+    and `locations[i]` the index in `groups` of `keys[i]`.  `locations` is one flat list: the code
+    returns `locations.reshape(-1)` (NumPy 2 hands the inverse back in the input's shape, which
+    matters for the one-row key array of `iter_group([label], axis=1)`; repaired in 60e8b9c).
+    The key values may be scalars or tuples (several key columns / rows, `unique_axis` 0 or 1:
+    the model is the same, the groups are the distinct key tuples).  The string fallback for
+    object keys NumPy cannot sort is not modelled (findings F52 / F59; its axis-1 repair 2295c49
+    is covered by the harness oracle). -/
 def groupsAndLocations (le : α → α → Bool) (keys : List α) : List α × List Nat :=
   let groups := dedupAdj (keys.mergeSort le)
   (groups, keys.map (fun k => groups.idxOf k))
